@@ -78,7 +78,7 @@ def completeness(ctx, ht):
             ctx.fail('C10.1', f, f.name, 'regenerate_header never rewrites `%s` (bytes %d:%d): the cropped file keeps the source\'s '
                      'value' % (row[0].text[:30] if row else role, row[0].lo if row else -1, row[0].hi if row else -1),
                      key_extra=str(role))
-    check_sizes(ctx, ht, 'C10.1') if False else None
+    check_sizes(ctx, ht, 'C10.1', select=lambda g: g.module.name == 'cropping')
     ctx.floor('C10.1', 9)
 
 
@@ -209,10 +209,28 @@ def alignment(ctx):
                     raise AnalysisError('correct_bounds: result does not normalise (mode %s axis %d): %r' % (m.name, k, v))
                 if v.elts[0] != want_lo:
                     bad = 'the lower bound becomes %r, rounding down to the block gives %r' % (v.elts[0], want_lo)
-                if v.elts[1] not in (want_hi, m.N[k]):
+                vh = v.elts[1]
+                cps = getattr(m.interp, 'cond_polys', {})
+                known = [(cps[c[0]], c[1]) for c in o.state.conds if c[0] in cps]
+                # equalities / orderings established on this path
+                eq_N = any(kind == 'Eq' and val and ((a_ == vh and b_ == m.N[k]) or (b_ == vh and a_ == m.N[k]))
+                           for (kind, a_, b_), val in known)
+                le_N = any((kind == 'min' and ((val and a_ == vh and b_ == m.N[k]) or (not val and b_ == vh and a_ == m.N[k])))
+                           or (kind in ('LtE', 'Lt') and val and a_ == vh and b_ == m.N[k])
+                           or (kind in ('GtE', 'Gt') and val and b_ == vh and a_ == m.N[k])
+                           or (kind in ('Gt',) and not val and a_ == vh and b_ == m.N[k])
+                           for (kind, a_, b_), val in known)
+                if vh == m.N[k] or eq_N:
+                    his.add('N')
+                elif vh == want_hi and le_N:
+                    his.add('ceil')
+                elif vh == want_hi:
+                    bad = ('the upper bound becomes %r (rounded up to the block) on a path that does not establish that this is '
+                           'within the axis length %r: a bound inside the last, partly filled block is rounded past the end of '
+                           'the axis' % (vh, m.N[k]))
+                else:
                     bad = 'the upper bound becomes %r, rounding up to the block gives %r (or the axis length %r)' % (
-                        v.elts[1], want_hi, m.N[k])
-                his.add(repr(v.elts[1]))
+                        vh, want_hi, m.N[k])
             label = 'axis %d [%s]' % (k, m.name)
             if bad:
                 ctx.fail('C10.7', f, f.name, 'alignment on axis %d (%s): %s: the cropped box is not the requested box widened to '
